@@ -22,8 +22,10 @@ def lines_of(evs, grace):
                         "sys": e.get("clock", "system") == "system", "fresh": bool(e["fresh"])})
         elif k == "CreateRet":
             out.append({"k": "created", "lg": e["lg"], "ptr": e["ptr"], "sinks": [x for x in e.get("sinks", "").split(",") if x]})
+        elif k == "GetCall":
+            out.append({"k": "getcall", "t": e["t"], "lg": e["lg"]})
         elif k == "GetRet":
-            out.append({"k": "got", "lg": e["lg"], "ptr": e["ptr"]})
+            out.append({"k": "got", "t": e["t"], "lg": e["lg"], "ptr": e["ptr"]})
         elif k == "LogCall":
             kind = "btnoinit" if (e["kind"] == "macro" and e["lvl"] == 9) else e["kind"]
             out.append({"k": "logcall", "t": e["t"], "id": e["id"], "lg": e["lg"], "lvl": e["lvl"], "kind": kind})
